@@ -1066,4 +1066,95 @@ theorem retired_run (a b : Bool) (T n : Nat) (ops : List Op) :
     exact ih _ (by rw [step_retire, hr]) (inv_step h o hi) (sentTask_step h o hs)
       (retired_step h o hr hi.bounds hi.acc hs hrt)
 
+-- ------------------------------------------------------- deadline-path verdicts, counting ----
+
+/-- a verdict taken on the deadline path belongs to a verb gathered under the worker timeout -/
+def LogTimed (h : Hub) : Prop :=
+  ∀ e ∈ h.log, ∀ t to, e.src = some (t, to) → to = true → t.verb.hasDeadline = true
+
+theorem logTimed_init (a b c : Bool) (t n : Nat) : LogTimed (Hub.init a b c t n) := by simp [LogTimed, Hub.init]
+
+theorem logTimed_step (h : Hub) (op : Op) (ht : Timed h) (hl : LogTimed h) : LogTimed (step h op) := by
+  cases op with
+  | request c v =>
+    simp only [step, request]
+    split
+    · exact hl
+    · intro e he t to hs
+      simp only [List.mem_append] at he
+      rcases he with he | he
+      · exact hl e he t to hs
+      · have := requestEmits_src h c v e he; simp [this] at hs
+  | response w rid st =>
+    simp only [step, response]
+    split
+    · exact hl
+    · intro e he t to hs
+      simp only [List.mem_append] at he
+      rcases he with he | he
+      · exact hl e he t to hs
+      · have := responseEmits_src h rid st e he; simp [this] at hs
+  | close w => simp only [step, close]; split <;> exact hl
+  | advance n => exact hl
+  | drop c => simp only [step]; split <;> exact hl
+  | tick =>
+    simp only [step, tick]
+    split
+    · exact hl
+    · intro e he t to hs hto
+      simp only [List.mem_append, List.mem_flatMap, List.mem_filter] at he
+      rcases he with he | ⟨t0, ⟨ht0, hd⟩, he⟩
+      · exact hl e he t to hs hto
+      · simp only [finishEmits, List.mem_map] at he
+        obtain ⟨k, hk, rfl⟩ := he
+        simp only [mkEmit, Option.some.injEq, Prod.mk.injEq] at hs
+        obtain ⟨rfl, rfl⟩ := hs
+        have h2 := (ht t0 ht0).2
+        simp only [timedOut, Bool.not_eq_true'] at hto
+        simp only [isDone, hto, Bool.false_or, deadlinePassed] at hd
+        cases hv : t0.verb.hasDeadline
+        · rw [hv] at h2; simp only [Bool.false_eq_true, if_false] at h2; rw [h2] at hd; simp at hd
+        · rfl
+
+theorem logTimed_run (a b c : Bool) (T n : Nat) (ops : List Op) : LogTimed (run (Hub.init a b c T n) ops) := by
+  suffices ∀ h, Timed h → LogTimed h → LogTimed (run h ops) from
+    this _ (timed_init a b c T n) (logTimed_init a b c T n)
+  induction ops with
+  | nil => intro h _ hl; exact hl
+  | cons o os ih => intro h ht hl; rw [run_cons]; exact ih _ (timed_step h o ht) (logTimed_step h o ht hl)
+
+/-- every id scattered for the task was answered Ok -/
+def AllAcked (t : Task) : Prop := ∀ rid ∈ t.sent, ∃ g ∈ t.got, g.2.1 = rid ∧ g.2.2 = .ok
+
+instance (t : Task) : Decidable (AllAcked t) := by unfold AllAcked; infer_instance
+
+/-- the counting argument: no error counted, the count reached the number of
+    ids, no id counted twice ⇒ every id was answered Ok -/
+theorem ack_core (seen : List Rid) (t : Task) (hti : TaskInv seen t) (herr : t.errors = 0)
+    (hfin : t.ok + t.errors ≥ t.expected) (hnodup : (termRids t.got).Nodup) :
+    AllAcked t ∧ ∀ g ∈ t.got, g.2.2 ≠ .failure := by
+  have hnofail : ∀ g ∈ t.got, g.2.2 ≠ .failure := by
+    have h0 : failCount t.got = 0 := by rw [← hti.errors]; exact herr
+    simp only [failCount, List.countP_eq_zero] at h0
+    intro g hg hgf; exact h0 g hg (by simp [hgf])
+  refine ⟨?_, hnofail⟩
+  have hsub : ∀ x ∈ termRids t.got, x ∈ t.sent := by
+    intro x hx
+    simp only [termRids, List.mem_map, List.mem_filter] at hx
+    obtain ⟨g, ⟨hg, _⟩, rfl⟩ := hx
+    exact hti.got_sent g hg
+  have hlen : t.sent.length ≤ (termRids t.got).length := by
+    rw [termRids_length, ← hti.ok, ← hti.errors, ← hti.expected]; omega
+  have hcov := covers_of_nodup (termRids t.got) t.sent hnodup hsub hlen
+  intro rid hrid
+  have := hcov rid hrid
+  simp only [termRids, List.mem_map, List.mem_filter] at this
+  obtain ⟨g, ⟨hg, hterm⟩, rfl⟩ := this
+  refine ⟨g, hg, rfl, ?_⟩
+  have := hnofail g hg
+  cases hst : g.2.2 with
+  | ok => rfl
+  | failure => exact absurd hst this
+  | processing => simp [hst] at hterm
+
 end Sozu.Hub
